@@ -74,11 +74,14 @@ Qed.
 
 Lemma powershell_quote_last val : last_byte (powershell_quote val) <> Some (byte 32).
 Proof.
-  unfold powershell_quote. destruct (contains_any val powershell_ActionRawValues_any1) eqn:E.
-  - change (B [39] ++ val ++ B [39]) with (B [39] ++ val ++ [byte 39]).
+  unfold powershell_quote. destruct (contains_any val powershell_ActionRawValues_any1) eqn:E; cbn [orb].
+  - change (B [39] ++ replace1 powershell_quoter val ++ B [39]) with (B [39] ++ replace1 powershell_quoter val ++ [byte 39]).
     rewrite last_byte_cons_app. intro H. inversion H.
-  - intro H. apply last_byte_In in H.
-    rewrite (contains_any_mem _ _ _ H blank_triggers_powershell) in E. discriminate.
+  - destruct (match val with c :: _ => beq c (byte 64) | [] => false end).
+    + change (B [39] ++ replace1 powershell_quoter val ++ B [39]) with (B [39] ++ replace1 powershell_quoter val ++ [byte 39]).
+      rewrite last_byte_cons_app. intro H. inversion H.
+    + intro H. apply last_byte_In in H.
+      rewrite (contains_any_mem _ _ _ H blank_triggers_powershell) in E. discriminate.
 Qed.
 
 (* the emitted nushell text ends in a blank iff the (sanitised) value does not match *)
